@@ -109,4 +109,13 @@ def main():
 
 
 if __name__ == "__main__":
-    sys.exit(main())
+    try:
+        rc = main()
+    except SystemExit:
+        raise
+    except BaseException:
+        # a crash of the harness itself is an infrastructure problem (exit 2), never a verdict about the property
+        traceback.print_exc()
+        print("harness error (no verdict)", file=sys.stderr)
+        rc = 2
+    sys.exit(rc)
